@@ -14,12 +14,30 @@
 //!  1b. role words: EVERY word over {B(oth), C(lient only), S(erver only)} up to length n — the client list is the B and
 //!     C positions, the server list the B and S positions, i.e. every pair of compatible orders with up to n members in
 //!     total — and every such word with two shared positions transposed on the server (incompatible orders);
+//!  1c. odd keys: the role words of 1b over members whose keys collide when a key is built carelessly — (name, descriptor) pairs
+//!     with equal concatenations ("aL"+"La;" / "a"+"LLa;"), names equal after a lossy conversion (two lone surrogates), the encoded
+//!     NUL, a supplementary character, composed / decomposed spellings, interfaces `La`, `LLa`, `a`, `p/W$`, `p/W$$`;
+//!  1d. marks already there (a jar that went through a merge before, or annotated by hand): a one-sided class with every
+//!     combination of @Environment(CLIENT|SERVER) sequences in its visible and invisible list, interface marks, a marked field and
+//!     a marked method; role words in which every member carries {no, visible/invisible CLIENT/SERVER} mark (shared members the
+//!     same on both sides); role words of interfaces with every assignment of {no, CLIENT, SERVER} interface mark already in the
+//!     class, stored in three forms, on both or one of the sides, with and without a mark for an interface of neither side;
+//!     a class of both sides carrying @Environment itself;
 //!  2. entries: EVERY subset of an entry menu (one-sided / identical / differing classes, equal / differing /
 //!     one-sided resources, directories, manifests, signature files per side, a bundled server library, …), of a menu of
 //!     large entries and of a menu of boundary entries (empty files, one-sided directory, look-alikes of signature files,
 //!     default-package classes), the jars listing their entries in the same and in opposite orders;
 //!  2b. entry names: the product directories × stems × endings around the three name rules (signature file, bundled
 //!     server library, manifest), each name on the client only, the server only, equal and differing on both sides;
+//!  2d. entry names with one character of 1, 2, 3 or 4 UTF-8 bytes after every prefix length (0..=16) of "META-INF/MOJANGCSX",
+//!     "net/minecraft/abcd", "com/google/abcdefg" and before every tail of ".class", ".SF", ".RSA": every byte offset at which a
+//!     name rule could cut (9, 14, 3/4/6 from the end) falls on a boundary, inside a character, and beyond a short name;
+//!  2e. environment: the large menu (every subset) and the extended menu (sparse and full subsets) read from zip archives behind
+//!     `Read + Seek` sources that serve 1 / 3 / 64 / 32768 bytes per call at most and answer every 3rd call with `Interrupted`
+//!     (thorough: 1, 2, 3, 5, 64, 1000, 32768 × never / every 2nd / every 3rd);
+//!  2f. counts at their limit: the annotation list that receives the mark (class, field, method; visible or invisible; the class
+//!     list holding the interface marks) already holds 65534 (the mark must still be written) or 65535 entries (refusal is right;
+//!     a class that is not well-formed or lacks the mark is not);
 //!  2c. class sets: EVERY assignment of {absent, client only, server only, identical, differing} to n class names;
 //!  3. differing classes with content: every single difference aspect applied to rich base classes, in both
 //!     directions and combined with one-sided members on both sides; the rich classes also on one side only.
@@ -34,8 +52,8 @@
 //!  E3 "minus bundled server libraries"                    presence(): server-only classes of well-known library packages must be
 //!                                                         absent; the same name on the client or on both sides, resources,
 //!                                                         default package, net/minecraft/ must stay — spaces 2, 2b, 2c
-//!  C1 "class on one side only is marked with that side"   judge_one_sided_class (mark, and nothing else changed) — spaces 2, 2b,
-//!                                                         2c, 3 (rich classes: annotations, module, record, …)
+//!  C1 "class on one side only is marked with that side"   judge_one_sided_class (mark, and nothing else changed) — spaces 1d, 2, 2b,
+//!                                                         2c, 2d, 2e, 2f, 3 (rich classes: annotations, module, record, …)
 //!  C2 "identical class passed through byte-identical"     judge_run identical-class:not-byte-identical — spaces 1 (diagonal), 2, 2b,
 //!                                                         2c; 1b holds masses of DIFFERENT classes of equal length (the test that
 //!                                                         selects this path must compare the bytes)
@@ -46,6 +64,9 @@
 //!                                                         interface, class:shared-marked — spaces 1, 1b, 2, 2b, 2c, 3
 //!  C5 "relative order within each side preserved          check_list order:* (only when compatible(c, s)) — spaces 1 (k ≤ 4 / 5),
 //!      whenever the two orders are compatible"             1b (n ≤ 9 / 11 members in total), 3
+//!  P  marks the INPUT already carries are subtracted (as multisets) from the marks of the merged jar before C1 / C4 are judged:
+//!     what the merge adds must name the thing's own side, at most once, and the thing must carry a mark of its side in the end;
+//!     marks that were there may stay or go (the statement is silent) — spaces 1d
 //!  Q  quantifier: disjoint / identical / overlapping class sets → 2c (floors per relation); interleavings, prefixes, suffixes,
 //!     permutations → 1, 1b (floors per relation and kind); resources equal or different → 2; META-INF content → 2, 2b
 
@@ -594,23 +615,35 @@ fn witf(p: usize) -> JS {
 	js(&format!("p/W{p}"))
 }
 
-fn word_class(kind: Kind, list: &[usize]) -> SClass {
+/// the members a role word stands for
+#[derive(Clone, Copy)]
+struct Syms {
+	/// first segment of the case labels
+	tag: &'static str,
+	field: fn(usize) -> SField,
+	method: fn(usize) -> SMethod,
+	itf: fn(usize) -> JS,
+}
+
+const PLAIN: Syms = Syms { tag: "word", field: wfield, method: wmethod, itf: witf };
+
+fn word_class(sym: &Syms, kind: Kind, list: &[usize]) -> SClass {
 	let mut c = skeleton("net/minecraft/W");
 	c.access = 0x0421;
 	c.annotations.invisible = vec![ann("Lp/ClassInv;")];
 	c.annotations.visible = vec![ann("Lp/ClassVis;")];
 	let fixed = [1usize, 0];
 	let pick = |varies: bool| if varies { list } else { &fixed[..] };
-	c.fields = pick(matches!(kind, Kind::Fields | Kind::All)).iter().map(|p| wfield(*p)).collect();
-	c.methods = pick(matches!(kind, Kind::Methods | Kind::All)).iter().map(|p| wmethod(*p)).collect();
-	c.interfaces = pick(matches!(kind, Kind::Interfaces | Kind::All)).iter().map(|p| witf(*p)).collect();
+	c.fields = pick(matches!(kind, Kind::Fields | Kind::All)).iter().map(|p| (sym.field)(*p)).collect();
+	c.methods = pick(matches!(kind, Kind::Methods | Kind::All)).iter().map(|p| (sym.method)(*p)).collect();
+	c.interfaces = pick(matches!(kind, Kind::Interfaces | Kind::All)).iter().map(|p| (sym.itf)(*p)).collect();
 	c
 }
 
 /// (jar, length of the class file in it)
-fn word_jar(kind: Kind, list: &[usize]) -> (Vec<u8>, usize) {
-	let label = format!("word/{}/list={}", kind.name(), seq_text(list));
-	let b = class_bytes(&label, &word_class(kind, list), &Encoding::default());
+fn word_jar(sym: &Syms, kind: Kind, list: &[usize]) -> (Vec<u8>, usize) {
+	let label = format!("{}/{}/list={}", sym.tag, kind.name(), seq_text(list));
+	let b = class_bytes(&label, &word_class(sym, kind, list), &Encoding::default());
 	let n = b.len();
 	(jar(&label, &vec![(WORD_ENTRY.to_owned(), Item::File(b))]), n)
 }
@@ -633,10 +666,10 @@ fn word_text(w: &[u8]) -> String {
 	if w.is_empty() { "-".to_owned() } else { String::from_utf8_lossy(w).into_owned() }
 }
 
-fn word_label(kind: Kind, w: &[u8], swap: Option<(usize, usize)>) -> String {
+fn word_label(sym: &Syms, kind: Kind, w: &[u8], swap: Option<(usize, usize)>) -> String {
 	match swap {
-		None => format!("word/{}/{}", kind.name(), word_text(w)),
-		Some((i, j)) => format!("word/{}/{}/swap={i}.{j}", kind.name(), word_text(w)),
+		None => format!("{}/{}/{}", sym.tag, kind.name(), word_text(w)),
+		Some((i, j)) => format!("{}/{}/{}/swap={i}.{j}", sym.tag, kind.name(), word_text(w)),
 	}
 }
 
@@ -658,13 +691,13 @@ struct WordBounds {
 	swapped: usize,
 }
 
-fn word_space(ctx: &Ctx, b: &WordBounds) -> Vec<(Kind, Stats)> {
+fn word_space(ctx: &Ctx, sym: &Syms, b: &WordBounds) -> Vec<(Kind, Stats)> {
 	let mut out = Vec::new();
 	for kind in KINDS {
 		let n = if kind == Kind::All { b.all } else { b.single };
 		let n_swap = if kind == Kind::All { b.swapped.min(b.all) } else { b.swapped };
 		// every ascending list is a subset of the positions: one jar per subset
-		let by_mask: Vec<(Vec<u8>, usize)> = (0..1usize << n).into_par_iter().map(|m| word_jar(kind, &(0..n).filter(|p| m & (1 << p) != 0).collect::<Vec<_>>())).collect();
+		let by_mask: Vec<(Vec<u8>, usize)> = (0..1usize << n).into_par_iter().map(|m| word_jar(sym, kind, &(0..n).filter(|p| m & (1 << p) != 0).collect::<Vec<_>>())).collect();
 		let mut cases: Vec<(Vec<u8>, Option<(usize, usize)>)> = Vec::new();
 		for idx in 0..vcore::enumerate::strings_count(3, n) {
 			let w: Vec<u8> = vcore::enumerate::string_nth(&ROLES, n, idx);
@@ -679,14 +712,14 @@ fn word_space(ctx: &Ctx, b: &WordBounds) -> Vec<(Kind, Stats)> {
 			cases.push((w, None));
 		}
 		let st = cases.par_iter().fold(Stats::new, |mut st, (w, swap)| {
-			let label = word_label(kind, w, *swap);
+			let label = word_label(sym, kind, w, *swap);
 			let (c, s) = word_lists(w, *swap).unwrap_or_else(|| fail(&format!("{label}: swap outside the word")));
 			let cj = &by_mask[mask_of(&c).unwrap_or_else(|| fail(&format!("{label}: client list not ascending")))];
 			let own;
 			let sj = match mask_of(&s) {
 				Some(m) => &by_mask[m],
 				None => {
-					own = word_jar(kind, &s);
+					own = word_jar(sym, kind, &s);
 					&own
 				},
 			};
@@ -708,6 +741,384 @@ fn word_space(ctx: &Ctx, b: &WordBounds) -> Vec<(Kind, Stats)> {
 		out.push((kind, st));
 	}
 	out
+}
+
+// ---------------------------------------------------------------------------------------------
+// space 4b: role words over odd-but-legal member keys
+
+fn js16(units: &[u16]) -> JS {
+	JS(units.to_vec())
+}
+
+/// names that collide when a key is built carelessly: (name, descriptor) pairs whose concatenations are equal ("aL"+"La;" and
+/// "a"+"LLa;"), names that are equal after a lossy conversion (two different lone surrogates), the encoded NUL, a
+/// supplementary character, class names beginning with the tag letter `L`
+fn odd_name(p: usize) -> (JS, &'static str) {
+	match p {
+		0 => (js("aL"), "La;"),
+		1 => (js("a"), "LLa;"),
+		2 => (js16(&[0xd800]), "I"),
+		3 => (js16(&[0xd801]), "I"),
+		4 => (js16(&[0]), "I"),
+		5 => (js("a"), "La;"),
+		6 => (js("aL"), "LLa;"),
+		7 => (js16(&[0xd800, 0xdc00]), "I"),
+		8 => (js16(&[0xdc00]), "I"),
+		9 => (js("\u{e9}"), "I"),
+		10 => (js("e\u{301}"), "I"),
+		_ => (js(&format!("a${p}")), "I"),
+	}
+}
+
+fn odd_field(p: usize) -> SField {
+	let (name, desc) = odd_name(p);
+	SField { access: 0x0001, name, desc: js(desc), ..Default::default() }
+}
+
+fn odd_method(p: usize) -> SMethod {
+	let (name, desc) = odd_name(p);
+	SMethod { access: 0x0401, name, desc: js(&format!("({desc})V")), ..Default::default() }
+}
+
+fn odd_itf(p: usize) -> JS {
+	match p {
+		0 => js("La"),
+		1 => js("LLa"),
+		2 => js16(&[b'p' as u16, b'/' as u16, 0xd800]),
+		3 => js16(&[b'p' as u16, b'/' as u16, 0xd801]),
+		4 => js("p/W$"),
+		5 => js("p/W"),
+		6 => js("a"),
+		7 => js16(&[b'p' as u16, b'/' as u16, 0xd800, 0xdc00]),
+		8 => js("p/W$$"),
+		9 => js("p/\u{e9}"),
+		10 => js("p/e\u{301}"),
+		_ => js(&format!("p/W${p}")),
+	}
+}
+
+const ODD: Syms = Syms { tag: "oddword", field: odd_field, method: odd_method, itf: odd_itf };
+
+// ---------------------------------------------------------------------------------------------
+// space 7: side marks that are already there (a jar that is itself the output of a merge, or annotated by hand)
+
+fn env_value(side: u8) -> SElementValue {
+	SElementValue::Enum { type_name: js(oracle::ENV_TYPE), const_name: js(if side == b'C' { "CLIENT" } else { "SERVER" }) }
+}
+
+fn env_mark(side: u8) -> SAnnotation {
+	SAnnotation { type_name: js(oracle::ENVIRONMENT), pairs: vec![(js("value"), env_value(side))] }
+}
+
+fn itf_mark(side: u8, itf: &JS) -> SAnnotation {
+	let mut d = vec![b'L' as u16];
+	d.extend(&itf.0);
+	d.push(b';' as u16);
+	SAnnotation { type_name: js(oracle::ENV_ITF), pairs: vec![(js("value"), env_value(side)), (js("itf"), SElementValue::Class(JS(d)))] }
+}
+
+fn itf_container(marks: Vec<SAnnotation>) -> SAnnotation {
+	SAnnotation { type_name: js(oracle::ENV_ITFS), pairs: vec![(js("value"), SElementValue::Array(marks.into_iter().map(SElementValue::Annotation).collect()))] }
+}
+
+/// marks a class / member may carry already: none, visible CLIENT, visible SERVER, invisible CLIENT, invisible SERVER
+const PREMARKS: usize = 5;
+
+fn premark(a: &mut SAnnotations, opt: usize) {
+	match opt {
+		1 => a.visible.push(env_mark(b'C')),
+		2 => a.visible.push(env_mark(b'S')),
+		3 => a.invisible.push(env_mark(b'C')),
+		4 => a.invisible.push(env_mark(b'S')),
+		_ => {},
+	}
+}
+
+fn digits(d: &[usize]) -> String {
+	if d.is_empty() { "-".to_owned() } else { d.iter().map(|x| x.to_string()).collect() }
+}
+
+fn digits_parse(t: &str, below: usize) -> Option<Vec<usize>> {
+	if t == "-" { Some(Vec::new()) } else { t.chars().map(|c| c.to_digit(10).map(|x| x as usize).filter(|x| *x < below)).collect() }
+}
+
+/// marks in one annotation list of a one-sided class
+const LIST_MARKS: [&str; 5] = ["", "C", "S", "CS", "SC"];
+/// [which side has the class, marks in its visible list, marks in its invisible list, interface marks, marks of a field, marks of a method]
+const ONE_SIDED_DIMS: [usize; 6] = [2, 5, 5, 3, PREMARKS, PREMARKS];
+const PREMARK_ENTRY: &str = "net/minecraft/P.class";
+
+fn premarked_one_sided_case(d: &[usize]) -> (Entries, Entries) {
+	let mut c = skeleton("net/minecraft/P");
+	c.interfaces = vec![witf(0)];
+	c.annotations.visible.push(ann("Lp/ClassVis;"));
+	c.annotations.visible.extend(LIST_MARKS[d[1]].bytes().map(env_mark));
+	c.annotations.visible.push(ann("Lp/ClassVis2;"));
+	c.annotations.invisible.extend(LIST_MARKS[d[2]].bytes().map(env_mark));
+	c.annotations.invisible.push(ann("Lp/ClassInv;"));
+	match d[3] {
+		1 => c.annotations.invisible.push(itf_container(vec![itf_mark(b'C', &witf(0)), itf_mark(b'S', &js("p/Gone"))])),
+		2 => c.annotations.visible.push(itf_mark(b'S', &witf(0))),
+		_ => {},
+	}
+	let mut f = wfield(1);
+	premark(&mut f.annotations, d[4]);
+	c.fields = vec![wfield(0), f, wfield(4)];
+	let mut m = wmethod(1);
+	premark(&mut m.annotations, d[5]);
+	c.methods = vec![m, wmethod(0)];
+	let label = format!("premarked/one-sided/{}", digits(d));
+	let class = (PREMARK_ENTRY.to_owned(), Item::File(class_bytes(&label, &c, &Encoding::default())));
+	let other = ("assets/other.txt".to_owned(), Item::File(b"o".to_vec()));
+	let with = vec![other.clone(), class];
+	let without = vec![other];
+	if d[0] == 0 { (with, without) } else { (without, with) }
+}
+
+/// a class with the members of `list`, the member of position p carrying the mark `pm[p]` already
+fn premarked_member_class(kind: Kind, list: &[usize], pm: &[usize]) -> SClass {
+	let mut c = word_class(&PLAIN, kind, list);
+	if kind == Kind::Fields {
+		for (f, p) in c.fields.iter_mut().zip(list) {
+			premark(&mut f.annotations, pm[*p]);
+		}
+	} else {
+		for (m, p) in c.methods.iter_mut().zip(list) {
+			premark(&mut m.annotations, pm[*p]);
+		}
+	}
+	c
+}
+
+fn one_class_jars(label: &str, c: &SClass, s: &SClass) -> (Entries, Entries) {
+	let e = |x: &SClass| vec![(WORD_ENTRY.to_owned(), Item::File(class_bytes(label, x, &Encoding::default())))];
+	(e(c), e(s))
+}
+
+fn premarked_member_case(kind: Kind, w: &[u8], pm: &[usize]) -> Option<(Entries, Entries)> {
+	if pm.len() != w.len() || !matches!(kind, Kind::Fields | Kind::Methods) {
+		return None;
+	}
+	let (c, s) = word_lists(w, None)?;
+	let label = format!("premarked/{}/{}/{}", kind.name(), word_text(w), digits(pm));
+	Some(one_class_jars(&label, &premarked_member_class(kind, &c, pm), &premarked_member_class(kind, &s, pm)))
+}
+
+/// how the interface marks that are already there are stored: one container in the invisible list, one in the visible list,
+/// every mark as an annotation of its own
+const ITF_FORMS: usize = 3;
+/// which side's class carries them: both, the client's, the server's
+const CARRIERS: usize = 3;
+
+fn premarked_itf_class(list: &[usize], pm: &[usize], form: usize, stale: bool, carries: bool) -> SClass {
+	let mut c = word_class(&PLAIN, Kind::Interfaces, list);
+	if carries {
+		let mut marks: Vec<SAnnotation> = pm.iter().enumerate().filter(|(_, m)| **m != 0).map(|(p, m)| itf_mark(if *m == 1 { b'C' } else { b'S' }, &witf(p))).collect();
+		if stale {
+			marks.push(itf_mark(b'C', &js("p/Gone")));
+		}
+		if !marks.is_empty() {
+			match form {
+				0 => c.annotations.invisible.push(itf_container(marks)),
+				1 => c.annotations.visible.push(itf_container(marks)),
+				_ => c.annotations.invisible.extend(marks),
+			}
+		}
+	}
+	c
+}
+
+/// `opt` = [form, carriers, stale mark too]
+fn premarked_itf_case(w: &[u8], pm: &[usize], opt: &[usize]) -> Option<(Entries, Entries)> {
+	let [form, carriers, stale] = opt else { return None };
+	if pm.len() != w.len() || *form >= ITF_FORMS || *carriers >= CARRIERS || *stale > 1 {
+		return None;
+	}
+	let (c, s) = word_lists(w, None)?;
+	let label = format!("premarked/interfaces/{}/{}/{}", word_text(w), digits(pm), digits(opt));
+	Some(one_class_jars(&label, &premarked_itf_class(&c, pm, *form, *stale == 1, *carriers != 2), &premarked_itf_class(&s, pm, *form, *stale == 1, *carriers != 1)))
+}
+
+/// a class of both sides that carries an @Environment itself; `opt` = [mark, carriers]
+fn premarked_class_case(w: &[u8], opt: &[usize]) -> Option<(Entries, Entries)> {
+	let [mark, carriers] = opt else { return None };
+	if *mark >= PREMARKS || *carriers >= CARRIERS {
+		return None;
+	}
+	let (c, s) = word_lists(w, None)?;
+	let label = format!("premarked/class/{}/{}", word_text(w), digits(opt));
+	let class = |list: &[usize], carries: bool| {
+		let mut x = word_class(&PLAIN, Kind::All, list);
+		if carries {
+			premark(&mut x.annotations, *mark);
+		}
+		x
+	};
+	Some(one_class_jars(&label, &class(&c, *carriers != 2), &class(&s, *carriers != 1)))
+}
+
+fn all_words(n: usize) -> Vec<Vec<u8>> {
+	(0..vcore::enumerate::strings_count(3, n)).map(|i| vcore::enumerate::string_nth(&ROLES, n, i)).collect()
+}
+
+/// every case of the space as (label, client entries, server entries)
+fn premarked_cases(n_members: usize, n_itfs: usize) -> Vec<(String, Entries, Entries)> {
+	let mut out = Vec::new();
+	let mut push = |label: String, case: Option<(Entries, Entries)>| {
+		let (c, s) = case.unwrap_or_else(|| fail(&format!("{label}: no such case")));
+		out.push((label, c, s));
+	};
+	for idx in 0..vcore::enumerate::Product::size(&ONE_SIDED_DIMS) {
+		let d = vcore::enumerate::product_nth(&ONE_SIDED_DIMS, idx);
+		push(format!("premarked/one-sided/{}", digits(&d)), Some(premarked_one_sided_case(&d)));
+	}
+	for kind in [Kind::Fields, Kind::Methods] {
+		for w in all_words(n_members) {
+			let dims = vec![PREMARKS; w.len()];
+			for idx in 0..vcore::enumerate::Product::size(&dims) {
+				let pm = vcore::enumerate::product_nth(&dims, idx);
+				push(format!("premarked/{}/{}/{}", kind.name(), word_text(&w), digits(&pm)), premarked_member_case(kind, &w, &pm));
+			}
+		}
+	}
+	for w in all_words(n_itfs) {
+		let dims = vec![3; w.len()];
+		for idx in 0..vcore::enumerate::Product::size(&dims) {
+			let pm = vcore::enumerate::product_nth(&dims, idx);
+			for stale in 0..2 {
+				if stale == 0 && pm.iter().all(|m| *m == 0) {
+					// nothing is there already: one case
+					let opt = [0, 0, 0];
+					push(format!("premarked/interfaces/{}/{}/{}", word_text(&w), digits(&pm), digits(&opt)), premarked_itf_case(&w, &pm, &opt));
+					continue;
+				}
+				for form in 0..ITF_FORMS {
+					for carriers in 0..CARRIERS {
+						let opt = [form, carriers, stale];
+						push(format!("premarked/interfaces/{}/{}/{}", word_text(&w), digits(&pm), digits(&opt)), premarked_itf_case(&w, &pm, &opt));
+					}
+				}
+			}
+		}
+	}
+	for w in all_words(2) {
+		for mark in 1..PREMARKS {
+			for carriers in 0..CARRIERS {
+				let opt = [mark, carriers];
+				push(format!("premarked/class/{}/{}", word_text(&w), digits(&opt)), premarked_class_case(&w, &opt));
+			}
+		}
+	}
+	out
+}
+
+fn premarked_by_label(parts: &[&str]) -> Option<(Entries, Entries)> {
+	let word = |w: &str| -> Option<Vec<u8>> {
+		let w: Vec<u8> = if w == "-" { Vec::new() } else { w.bytes().collect() };
+		(w.len() <= 8 && w.iter().all(|r| ROLES.contains(r))).then_some(w)
+	};
+	match parts {
+		["one-sided", d] => {
+			let d = digits_parse(d, 10)?;
+			(d.len() == ONE_SIDED_DIMS.len() && d.iter().zip(ONE_SIDED_DIMS).all(|(x, n)| *x < n)).then(|| premarked_one_sided_case(&d))
+		},
+		[kind @ ("fields" | "methods"), w, pm] => premarked_member_case(KINDS.into_iter().find(|k| k.name() == *kind)?, &word(w)?, &digits_parse(pm, PREMARKS)?),
+		["interfaces", w, pm, opt] => premarked_itf_case(&word(w)?, &digits_parse(pm, 3)?, &digits_parse(opt, 10)?),
+		["class", w, opt] => premarked_class_case(&word(w)?, &digits_parse(opt, 10)?),
+		_ => None,
+	}
+}
+
+fn premarked_space(ctx: &Ctx, n_members: usize, n_itfs: usize) -> Stats {
+	premarked_cases(n_members, n_itfs).into_par_iter().fold(Stats::new, |mut st, (label, c, s)| {
+		let (cj, sj) = (jar(&label, &c), jar(&label, &s));
+		st.outcome(&format!("premarked-space:{}", label.split('/').nth(1).unwrap_or("?")));
+		vcore::watched(|| watch_text(&label), || judge(ctx, &mut st, &label, &cj, &sj, &BOTH));
+		st
+	}).reduce(Stats::new, Stats::merge)
+}
+
+// ---------------------------------------------------------------------------------------------
+// space 8: counts at the limit of their 16-bit field before the merge adds a mark
+
+const LIMIT_COUNTS: [usize; 2] = [65534, 65535];
+
+fn many_annotations(a: &mut SAnnotations, list: &str, n: usize) {
+	let filler = SAnnotation { type_name: js("Lp/A;"), pairs: Vec::new() };
+	if list == "visible" {
+		a.visible = vec![filler; n];
+	} else {
+		a.invisible = vec![filler; n];
+	}
+}
+
+/// `what` ∈ one-sided | field | method | interfaces; `side` = the side that has the class / the extra member / the extra
+/// interface; `list` = the annotation list that is (nearly) full
+fn limits_case(what: &str, side: &str, list: &str, n: usize) -> Option<(Entries, Entries)> {
+	if !["client", "server"].contains(&side) || !["visible", "invisible"].contains(&list) || !LIMIT_COUNTS.contains(&n) {
+		return None;
+	}
+	let label = format!("limits/{what}/{side}/{list}/{n}");
+	let mut base = word_class(&PLAIN, Kind::All, &[0, 1]);
+	let mut rich = base.clone();
+	match what {
+		"one-sided" => many_annotations(&mut rich.annotations, list, n),
+		"field" => {
+			let mut f = wfield(2);
+			many_annotations(&mut f.annotations, list, n);
+			rich.fields.insert(1, f);
+		},
+		"method" => {
+			let mut m = wmethod(2);
+			many_annotations(&mut m.annotations, list, n);
+			rich.methods.insert(1, m);
+		},
+		"interfaces" => {
+			many_annotations(&mut base.annotations, list, n);
+			many_annotations(&mut rich.annotations, list, n);
+			rich.interfaces.insert(1, witf(2));
+		},
+		_ => return None,
+	}
+	let entry = |c: &SClass| (WORD_ENTRY.to_owned(), Item::File(class_bytes(&label, c, &Encoding::default())));
+	let other = ("assets/other.txt".to_owned(), Item::File(b"o".to_vec()));
+	let with = vec![other.clone(), entry(&rich)];
+	let without = if what == "one-sided" { vec![other] } else { vec![other, entry(&base)] };
+	Some(if side == "client" { (with, without) } else { (without, with) })
+}
+
+fn limits_space(ctx: &Ctx) -> Stats {
+	let mut cases = Vec::new();
+	for what in ["one-sided", "field", "method", "interfaces"] {
+		for side in ["client", "server"] {
+			for list in ["visible", "invisible"] {
+				for n in LIMIT_COUNTS {
+					cases.push((what, side, list, n));
+				}
+			}
+		}
+	}
+	cases.into_par_iter().fold(Stats::new, |mut st, (what, side, list, n)| {
+		let label = format!("limits/{what}/{side}/{list}/{n}");
+		let (c, s) = limits_case(what, side, list, n).unwrap_or_else(|| fail(&format!("{label}: no such case")));
+		let (cj, sj) = (jar(&label, &c), jar(&label, &s));
+		st.outcome(&format!("limits:{n}-annotations-in-the-list-before-the-merge"));
+		vcore::watched(|| watch_text(&label), || judge(ctx, &mut st, &label, &cj, &sj, &BOTH));
+		st
+	}).reduce(Stats::new, Stats::merge)
+}
+
+/// `Read + Seek` sources that serve the jar in pieces: (bytes per call at most, every n-th call is `Interrupted`; 0 = never)
+fn chunked_drivers(thorough: bool) -> Vec<Driver> {
+	let chunks: &[usize] = if thorough { &[1, 2, 3, 5, 64, 1000, 32768] } else { &[1, 3, 64, 32768] };
+	let interrupts: &[usize] = if thorough { &[0, 2, 3] } else { &[0, 3] };
+	let mut v = Vec::new();
+	for c in chunks {
+		for i in interrupts {
+			v.push(Driver::Chunked { chunk: *c, interrupt: *i });
+		}
+	}
+	v
 }
 
 // ---------------------------------------------------------------------------------------------
@@ -794,6 +1205,64 @@ fn names_space(ctx: &Ctx) -> Stats {
 			if u.contains("MANIFEST.MF") && !oracle::is_manifest_name(name) {
 				st.outcome("names:look-alike-of-the-manifest-that-has-to-stay-as-it-is");
 			}
+		}
+		vcore::watched(|| watch_text(&label), || judge(ctx, &mut st, &label, &cj, &sj, &BOTH));
+		st
+	}).reduce(Stats::new, Stats::merge)
+}
+
+/// entry names with one character of 1, 2, 3 or 4 UTF-8 bytes after every prefix length of three rule-relevant prefixes and
+/// before every tail of the three rule-relevant endings: a name rule that cuts the name at a byte offset (9 = "META-INF/",
+/// 14 = "net/minecraft/", 3, 4 or 6 from the end) meets a character boundary, the middle of a character and a name shorter
+/// than the cut
+fn multibyte_names() -> Vec<String> {
+	let mut set = std::collections::BTreeSet::new();
+	let mut tails: Vec<&str> = Vec::new();
+	for e in [".class", ".SF", ".RSA"] {
+		for q in 0..=e.len() {
+			tails.push(&e[e.len() - q..]);
+		}
+	}
+	for base in ["META-INF/MOJANGCSX", "net/minecraft/abcd", "com/google/abcdefg"] {
+		for p in 0..=16 {
+			for ch in ["x", "\u{e9}", "\u{20ac}", "\u{1f600}"] {
+				for t in &tails {
+					set.insert(format!("{}{ch}{t}", &base[..p]));
+				}
+			}
+		}
+	}
+	set.into_iter().collect()
+}
+
+fn multibyte_names_space(ctx: &Ctx, presences: &[&'static str]) -> Stats {
+	let mut cases = Vec::new();
+	for n in multibyte_names() {
+		for p in presences {
+			cases.push((n.clone(), *p));
+		}
+	}
+	cases.par_iter().fold(Stats::new, |mut st, (name, p)| {
+		let label = format!("names-multibyte/{p}/{name}");
+		let (c, s) = name_case(name, p).unwrap_or_else(|| fail(&format!("{label}: no such case")));
+		let (cj, sj) = (jar(&label, &c), jar(&label, &s));
+		let (pres, why) = oracle::presence(name, *p != "server", *p != "client");
+		st.outcome(&format!("names:{pres:?}:{why}"));
+		if !name.is_ascii() {
+			st.outcome("names:with-a-multi-byte-character");
+			for (cut, what) in [(9, "byte 9"), (14, "byte 14")] {
+				if name.len() > cut && !name.is_char_boundary(cut) {
+					st.outcome(&format!("names:{what}-inside-a-character"));
+				}
+			}
+			for back in [3, 4, 6] {
+				if name.len() > back && !name.is_char_boundary(name.len() - back) {
+					st.outcome(&format!("names:{back}-bytes-from-the-end-inside-a-character"));
+				}
+			}
+		}
+		if name.len() < 6 {
+			st.outcome("names:shorter-than-six-bytes");
 		}
 		vcore::watched(|| watch_text(&label), || judge(ctx, &mut st, &label, &cj, &sj, &BOTH));
 		st
@@ -907,7 +1376,8 @@ fn case_by_label(label: &str) -> Option<(Vec<u8>, Vec<u8>)> {
 			};
 			Some(entry_case(&m, label, mask, order))
 		},
-		["word", kind, w] | ["word", kind, w, _] => {
+		[tag @ ("word" | "oddword"), kind, w] | [tag @ ("word" | "oddword"), kind, w, _] => {
+			let sym = if *tag == "word" { &PLAIN } else { &ODD };
 			let kind = KINDS.into_iter().find(|k| k.name() == *kind)?;
 			let word: Vec<u8> = if *w == "-" { Vec::new() } else { w.bytes().collect() };
 			if word.len() > 12 || word.iter().any(|r| !ROLES.contains(r)) {
@@ -921,9 +1391,17 @@ fn case_by_label(label: &str) -> Option<(Vec<u8>, Vec<u8>)> {
 				},
 			};
 			let (c, s) = word_lists(&word, swap)?;
-			Some((word_jar(kind, &c).0, word_jar(kind, &s).0))
+			Some((word_jar(sym, kind, &c).0, word_jar(sym, kind, &s).0))
 		},
-		["names", presence, name @ ..] => {
+		["limits", what, side, list, n] => {
+			let (c, s) = limits_case(what, side, list, n.parse().ok()?)?;
+			Some((jar(label, &c), jar(label, &s)))
+		},
+		["premarked", rest @ ..] => {
+			let (c, s) = premarked_by_label(rest)?;
+			Some((jar(label, &c), jar(label, &s)))
+		},
+		["names" | "names-multibyte", presence, name @ ..] => {
 			let (c, s) = name_case(&name.join("/"), presence)?;
 			Some((jar(label, &c), jar(label, &s)))
 		},
@@ -950,10 +1428,13 @@ fn replay(ctx: &'static Ctx, path: &std::path::Path) -> ! {
 	} else {
 		case_by_label(&label).unwrap_or_else(|| vcore::machinery_fail(&format!("replay: neither jars nor a known label ({label:?})")))
 	};
+	// every way the tiers hand jars to the merge
+	let mut drivers = BOTH.to_vec();
+	drivers.extend(chunked_drivers(true));
 	let mut st = Stats::new();
-	judge(ctx, &mut st, &label, &client, &server, &BOTH);
+	judge(ctx, &mut st, &label, &client, &server, &drivers);
 	let mut st2 = Stats::new();
-	judge(ctx, &mut st2, &label, &client, &server, &BOTH);
+	judge(ctx, &mut st2, &label, &client, &server, &drivers);
 	if st.outcomes != st2.outcomes {
 		vcore::machinery_fail("replay: two runs of the same case differ");
 	}
@@ -1003,10 +1484,21 @@ fn main() {
 	let wb = WordBounds { single: ctx.tier.pick(9, 11), all: ctx.tier.pick(7, 9), swapped: ctx.tier.pick(7, 9) };
 	let mut word_by_kind = Vec::new();
 	let mut words = Stats::new();
-	for (kind, st) in word_space(ctx, &wb) {
+	for (kind, st) in word_space(ctx, &PLAIN, &wb) {
 		word_by_kind.push((kind, run(&format!("role-words/{}", kind.name()), st.clone())));
 		words = words.merge(st);
 	}
+
+	// 1c. role words over odd-but-legal member keys
+	let ob = WordBounds { single: ctx.tier.pick(6, 8), all: ctx.tier.pick(5, 6), swapped: ctx.tier.pick(5, 6) };
+	let mut odd_by_kind = Vec::new();
+	for (kind, st) in word_space(ctx, &ODD, &ob) {
+		odd_by_kind.push((kind, run(&format!("odd-keys/{}", kind.name()), st)));
+	}
+
+	// 1d. side marks that are already there
+	let (pm_members, pm_itfs) = (ctx.tier.pick(3, 4), ctx.tier.pick(3, 4));
+	let premarked = run("marks-already-there", premarked_space(ctx, pm_members, pm_itfs));
 
 	// 2. entries (merge() warns on stderr for every differing resource)
 	let base_menu = menu(false);
@@ -1032,6 +1524,13 @@ fn main() {
 	let all_big: Vec<u32> = (0..1u32 << big_menu.len()).collect();
 	entries = entries.merge(entry_space(ctx, &big_menu, "entries-large", &all_big, EntryOrder::AsListed, &BOTH));
 	lap("large menu");
+	// the same jars behind sources that serve them in pieces
+	let chunked = chunked_drivers(!quick);
+	let mut pieces = entry_space(ctx, &big_menu, "entries-large", &all_big, EntryOrder::AsListed, &chunked);
+	pieces = pieces.merge(entry_space(ctx, &full_menu, "entries-extended", &extended_masks(base_menu.len(), full_menu.len(), false).into_iter().filter(|m| m >> base_menu.len() == 0 || m >> base_menu.len() == (1 << (full_menu.len() - base_menu.len())) - 1).collect::<Vec<_>>(), EntryOrder::ClientReversed, &chunked));
+	lap("chunked sources");
+	let limits = limits_space(ctx);
+	lap("limits");
 	let edge_menu = boundary_menu();
 	let all_edge: Vec<u32> = (0..1u32 << edge_menu.len()).collect();
 	let mut boundary = entry_space(ctx, &edge_menu, "entries-boundary", &all_edge, EntryOrder::AsListed, &BOTH);
@@ -1039,6 +1538,9 @@ fn main() {
 	lap("boundary menu");
 	let names = names_space(ctx);
 	lap("names");
+	let mb_presences: &[&'static str] = if quick { &["client", "server", "both-differing"] } else { &NAME_PRESENCES };
+	let mb_names = multibyte_names_space(ctx, mb_presences);
+	lap("multi-byte names");
 	let n_class_names = ctx.tier.pick(5, 6);
 	let classsets = classset_space(ctx, n_class_names);
 	lap("class sets");
@@ -1047,8 +1549,11 @@ fn main() {
 		eprintln!("{l}");
 	}
 	let entries = run("entries", entries);
+	let pieces = run("entries-behind-chunked-sources", pieces);
+	let limits = run("counts-at-their-limit", limits);
 	let boundary = run("entries-boundary", boundary);
 	let names = run("entry-names", names);
+	let mb_names = run("entry-names-multibyte", mb_names);
 	let classsets = run("class-sets", classsets);
 
 	// 3. content of differing classes
@@ -1104,6 +1609,52 @@ fn main() {
 			ctx.floor(&format!("role words {}: {l}s marked server-only", kind.name()), 1000, st.get(&format!("mark:{l}:server-only-marked")));
 		}
 	}
+	for (kind, st) in &odd_by_kind {
+		let lists: &[&str] = match kind {
+			Kind::Fields => &["field"],
+			Kind::Methods => &["method"],
+			Kind::Interfaces => &["interface"],
+			Kind::All => &["field", "method", "interface"],
+		};
+		let n = if *kind == Kind::All { ob.all } else { ob.single };
+		ctx.floor(&format!("odd keys {}: words of the full length {n}", kind.name()), 3u64.pow(n as u32), st.get("word:of-full-length"));
+		ctx.floor(&format!("odd keys {}: classes merged member by member", kind.name()), vcore::enumerate::strings_count(3, n) - (n as u64 + 1), st.get("class:differing:merged"));
+		for l in lists {
+			ctx.floor(&format!("odd keys {}: {l}s marked client-only", kind.name()), 300, st.get(&format!("mark:{l}:client-only-marked")));
+			ctx.floor(&format!("odd keys {}: {l}s marked server-only", kind.name()), 300, st.get(&format!("mark:{l}:server-only-marked")));
+			ctx.floor(&format!("odd keys {}: compatible {l} orders found preserved on both sides", kind.name()), vcore::enumerate::strings_count(3, n) - (n as u64 + 1), st.get(&format!("order:{l}:both-orders-preserved")));
+		}
+	}
+	ctx.floor("marks already there: cases", 20000, premarked.get("case:held") + premarked.get("case:differences"));
+	ctx.floor("marks already there: one-sided classes", 2 * vcore::enumerate::Product::size(&ONE_SIDED_DIMS), premarked.get("class:one-sided:client") + premarked.get("class:one-sided:server"));
+	for kind in ["class", "field", "method", "interface"] {
+		ctx.floor(&format!("marks already there: one-sided {kind} that carried a mark of the other side and is marked with its own"), 1000, sum_prefix(&premarked, &format!("premarked:{kind}:with-the-other-side:")));
+		ctx.floor(&format!("marks already there: one-sided {kind} that carried a mark of its own side"), 1000, sum_prefix(&premarked, &format!("premarked:{kind}:with-its-own-side:")));
+		ctx.floor(&format!("marks already there: shared {kind} that carried a mark and got none"), 100, premarked.get(&format!("premarked:{kind}:shared:nothing-added")));
+	}
+	ctx.floor("marks already there: members of one-sided classes that carried a mark", 1000, premarked.get("premarked:member-of-one-sided-class"));
+	ctx.floor("marks already there: classes with interface marks in the input", 10000, premarked.get("premarked:class-with-interface-marks-in-the-input"));
+	ctx.floor("marks already there: identical classes carrying marks passed through", 100, premarked.get("class:identical-passed-through-byte-identical"));
+	ctx.floor("multi-byte entry names: cases", 8000, mb_names.get("case:held") + mb_names.get("case:differences"));
+	ctx.floor("multi-byte entry names: names with a multi-byte character", 5000, mb_names.get("names:with-a-multi-byte-character"));
+	for what in ["byte 9", "byte 14"] {
+		ctx.floor(&format!("multi-byte entry names: {what} inside a character"), 500, mb_names.get(&format!("names:{what}-inside-a-character")));
+	}
+	for back in [3, 4, 6] {
+		ctx.floor(&format!("multi-byte entry names: {back} bytes from the end inside a character"), 1000, mb_names.get(&format!("names:{back}-bytes-from-the-end-inside-a-character")));
+	}
+	ctx.floor("multi-byte entry names: names shorter than six bytes", 300, mb_names.get("names:shorter-than-six-bytes"));
+	ctx.floor("multi-byte entry names: signature files dropped", 100, mb_names.get("entry:dropped:signature-file"));
+	ctx.floor("multi-byte entry names: one-sided classes marked", 100, mb_names.get("mark:class:client-only-marked").min(mb_names.get("mark:class:server-only-marked")));
+	ctx.floor("multi-byte entry names: bundled server library classes dropped", 10, mb_names.get("entry:dropped:bundled-server-library"));
+	ctx.floor("chunked sources: merges", (chunked.len() * (all_big.len() + 50)) as u64, pieces.get("driver:zip-jar-behind-a-chunked-source"));
+	ctx.floor("chunked sources: entries passed through or merged", 5000, pieces.get("entry:present-once"));
+	ctx.floor("chunked sources: classes merged member by member", 500, pieces.get("class:differing:merged"));
+	for n in LIMIT_COUNTS {
+		ctx.floor(&format!("counts at their limit: cases with {n} annotations in the list"), 16, limits.get(&format!("limits:{n}-annotations-in-the-list-before-the-merge")));
+	}
+	ctx.floor("counts at their limit: lists of 65534 that received their mark", 16, limits.get("mark:class:client-only-marked") + limits.get("mark:class:server-only-marked") + limits.get("mark:field:client-only-marked") + limits.get("mark:field:server-only-marked") + limits.get("mark:method:client-only-marked") + limits.get("mark:method:server-only-marked") + limits.get("mark:interface:client-only-marked") + limits.get("mark:interface:server-only-marked"));
+	ctx.floor("counts at their limit: jars with a full list recognised as such", 16, limits.get("domain:a-count-is-at-its-limit"));
 	ctx.floor("entry names: cases", 3000, names.get("case:held") + names.get("case:differences"));
 	ctx.floor("entry names: signature files dropped", 16, names.get("entry:dropped:signature-file"));
 	ctx.floor("entry names: look-alikes of signature files (.SF/.RSA outside META-INF/, .SF.txt, XSF, ...) kept", 400, names.get("names:look-alike-of-a-signature-file-that-has-to-stay"));
@@ -1168,6 +1719,11 @@ fn main() {
 			"boundary_menu": edge_menu.iter().map(|m| format!("{}: {}", m.what, m.name)).collect::<Vec<_>>(),
 			"boundary_menu_subsets": format!("all 2^{} subsets, entries as listed and with the client's entries reversed; both jar implementations", edge_menu.len()),
 			"class_sets": format!("every assignment of {{absent, client only, server only, identical, differing}} to {n_class_names} class names ({} pairs of jars), the server listing its entries in reverse; both jar implementations", 5u64.pow(n_class_names as u32)),
+			"odd_keys": format!("role words up to length {} (fields, methods, interfaces each) / {} (all three), swaps up to {}, over members {:?} and interfaces {:?}", ob.single, ob.all, ob.swapped, (0..ob.single).map(|p| { let (n, d) = odd_name(p); format!("{} {d}", n.to_string_lossy()) }).collect::<Vec<_>>(), (0..ob.single).map(|p| odd_itf(p).to_string_lossy()).collect::<Vec<_>>()),
+			"marks_already_there": format!("one-sided class: {:?} = side x marks in the visible list {:?} x marks in the invisible list x interface marks (none, container, lone) x mark of a field x mark of a method (none, visible C/S, invisible C/S); members: every role word up to length {pm_members} x every assignment of the 5 marks to its positions, fields and methods; interfaces: every role word up to length {pm_itfs} x every assignment of (none, CLIENT, SERVER) x 3 forms x 3 carriers x stale mark; class of both sides: 4 marks x 3 carriers x words up to length 2; {} cases, both jar implementations", ONE_SIDED_DIMS, LIST_MARKS, premarked.get("case:held") + premarked.get("case:differences")),
+			"multibyte_entry_names": format!("{} names x presences {:?}, both jar implementations", multibyte_names().len(), mb_presences),
+			"chunked_sources": chunked.iter().map(|d| format!("{d:?}")).collect::<Vec<_>>(),
+			"counts_at_their_limit": "one-sided class / one-sided field / one-sided method / class needing interface marks x client, server x visible, invisible list x 65534, 65535 annotations already in the list",
 			"jar_implementations": "member-order and role-word spaces: UnnamedMemJar (zip archive in memory); content space, entry menus (base, large, boundary), entry names and class sets: UnnamedMemJar and ParsedJar inputs, each judged separately",
 		},
 		"side_marks": {
@@ -1183,5 +1739,6 @@ fn main() {
 		"the merged jar is observed after ParsedJar::to_mem (duke's writer) and the zip crate; facts duke's reader/writer lose on their own are cancelled by comparing the rest of a class with write_class(read_class(side))",
 		"where the statement is silent (manifest content, which side of a differing resource, order of incompatible member lists, .DSA/.EC/SIG- files, .SF/.RSA names in another case or in a sub-directory of META-INF/, server-only classes below META-INF/ or of unclear origin, classes differing in more than member lists being refused) every behaviour but a panic or a fact from neither side is accepted",
 		"zip entry names are compared as written; jar entry order is not judged",
+		"side marks the input already carries: only what the merge adds is judged (own side, at most once, present in the end); whether an old mark of the other side is kept next to the new one (the unchanged tree keeps it, giving a class two @Environment annotations) or replaced is not decided by the statement",
 	]);
 }
